@@ -4,6 +4,7 @@ import AdfObdd.CountsDef
 import AdfObdd.CountsMore
 import AdfObdd.PathsDepth
 import AdfObdd.OpsProofs
+import AdfObdd.TTSpec
 /-! # C13 — counts, depth, supports and path cubes of a diagram are exact
 
 Model: `countF` (= `modelcount_naive`: counter-models, models, depth), `pathsF`, `depsF`
@@ -118,6 +119,31 @@ theorem depth_exact (s : Store) (w : WF s) (t : Nat) (ht : t < s.nodes.size) :
      have h01 : t = 0 ∨ t = 1 := by omega
      rcases h01 with h | h <;> subst h <;> simp [countF]⟩
 
+/-! ## tie to the executable truth-table specification (`Spec/TT.lean`, via `TTSpec.lean`) -/
+
+/-- if the truth table `tt` over `nv` variables represents the function of the diagram `t` and
+the diagram's variables are below `nv`, then the counts of the diagram stand in the exact ratio
+to `TT.sat` / `TT.unsat` of the table, and the dependency set is `TT.deps` of the table — the
+comparisons the test driver performs -/
+theorem counts_vs_truth_table (s : Store) (w : WF s) (t : Nat) (ht : t < s.nodes.size) (nv tt : Nat)
+    (hrep : TT.Rep nv tt (eval s t)) (hdeps : ∀ x ∈ depsF s (t+1) t, x < nv) :
+    (countF s (t+1) t).2.1 * 2 ^ nv = TT.sat nv tt * 2 ^ (countF s (t+1) t).2.2 ∧
+    (countF s (t+1) t).1 * 2 ^ nv = TT.unsat nv tt * 2 ^ (countF s (t+1) t).2.2 ∧
+    (∀ x, x ∈ depsOf s t ↔ x ∈ TT.deps nv tt) := by
+  have hdet : TT.DetBy nv (eval s t) := by
+    intro σ σ' hag
+    exact eval_agree_on_deps s w.table t ht σ σ' (fun x hx => hag x (hdeps x hx))
+  have hsorted : (List.range nv).Pairwise (· < ·) := List.pairwise_lt_range
+  have hmem : ∀ x ∈ depsF s (t+1) t, x ∈ List.range nv := fun x hx => List.mem_range.mpr (hdeps x hx)
+  have h1 := models_exact_ratio s w t ht (List.range nv) hsorted hmem (fun _ => false)
+  have h2 := cmodels_exact_ratio s w t ht (List.range nv) hsorted hmem (fun _ => false)
+  rw [List.length_range] at h1 h2
+  rw [← TT.sat_eq hrep hdet (List.range nv) (List.Perm.refl _) (fun _ => false)] at h1
+  rw [← TT.unsat_eq hrep hdet (List.range nv) (List.Perm.refl _) (fun _ => false)] at h2
+  refine ⟨h1, h2, ?_⟩
+  intro x
+  rw [deps_are_essential s w t x ht, TT.mem_deps_iff hrep hdet]
+
 /-- the one-variable store used by the non-vacuity examples -/
 def x0Store : Store := (mkNode Store.init 0 0 1).1
 
@@ -147,5 +173,16 @@ example : ([0, 1] : List Nat).Pairwise (· < ·) ∧ (∀ x ∈ depsF x0Store 3 
     have hc : countF x0Store 3 2 = (1, 1, 1) := by simp [countF, x0Store_nodes]
     rw [hc] at this ⊢
     simpa using this
+
+/-- non-vacuity of `counts_vs_truth_table`: the table of x0 over one variable represents the
+diagram of x0 -/
+example : TT.Rep 1 (TT.var 1 0) (eval x0Store 2) ∧ (∀ x ∈ depsF x0Store 3 2, x < 1) := by
+  constructor
+  · have : eval x0Store 2 = fun σ => σ 0 := by
+      funext σ
+      rw [eval_node x0Store x0Store_WF 2 ⟨0, 0, 1⟩ (by decide) (by simp [x0Store_nodes]), eval_one, eval_zero]
+      cases σ 0 <;> rfl
+    rw [this]; exact TT.rep_var 1 0
+  · simp [depsF, x0Store_nodes]
 
 end C13
